@@ -95,7 +95,7 @@ Rule(st, i, nd) ==
     [] op \in {"witness", "fail"} -> [s |-> OkS(s \o <<Free, Free>>), ar |-> SetAr(ar, i, <<n + 1, n + 2>>)]
     [] HasLeafTy(op) -> [s |-> OkS(s \o <<C(LeafTy(op)[1]), C(LeafTy(op)[2])>>), ar |-> SetAr(ar, i, <<n + 1, n + 2>>)]
     \* a leaf whose complete source/target types are given with the node (any jet or word, in recorded traces)
-    [] op = "leaf" -> [s |-> OkS(s \o <<C(Uz(nd[4][1])), C(Uz(nd[4][2]))>>), ar |-> SetAr(ar, i, <<n + 1, n + 2>>)]
+    [] op \in {"leaf", "word"} -> [s |-> OkS(s \o <<C(Uz(nd[4][1])), C(Uz(nd[4][2]))>>), ar |-> SetAr(ar, i, <<n + 1, n + 2>>)]
     [] op = "injl" -> [s |-> OkS(s \o <<Free, <<"+", L[2], n + 1>>>>), ar |-> SetAr(ar, i, <<L[1], n + 2>>)]
     [] op = "injr" -> [s |-> OkS(s \o <<Free, <<"+", n + 1, L[2]>>>>), ar |-> SetAr(ar, i, <<L[1], n + 2>>)]
     [] op = "take" -> [s |-> OkS(s \o <<Free, <<"*", L[1], n + 1>>>>), ar |-> SetAr(ar, i, <<n + 2, L[2]>>)]
